@@ -37,6 +37,16 @@ class CountingLock:
     def release(self):
         self.n -= 1
 
+    def locked(self):
+        return self.n > 0
+
+    def __enter__(self):
+        self.acquire()
+        return self
+
+    def __exit__(self, *a):
+        self.release()
+
 
 class InstantBarrier:
     """threading.Barrier double: fewer parties than the threshold (40/50) always ends in the timeout
@@ -329,6 +339,10 @@ def run(rep):
         if len(rep.violations) >= 10:
             break
     rep.notes["concurrent_executions"] = ncc
+    # the whole stack of one interface: real node, Worker loops, Bromelia.main, per-message threads (spec/Stack.tla)
+    if len(rep.violations) < 10:
+        from . import stack
+        stack.stage(rep, 60 if rep.tier == "quick" else 1500, focus="requests")
     rep.sample({"scenario": vecs[len(vecs) // 2]})
     rep.exhaustive = True
 
@@ -357,6 +371,9 @@ def run(rep):
 
 def replay(rep, path):
     r = json.load(open(path))["replay"]
+    if r.get("kind") == "stack":
+        from . import stack
+        return stack.replay(rep, r)
     if r.get("kind") == "concurrent":
         from engine import vsched
         vsched.install(0)
@@ -427,24 +444,25 @@ def run_concurrent(seed, outcomes, with_local=False):
     worker = router.workers[app_bytes("a1")]
     sent = []
 
-    def consumer():
-        while True:
-            msg = worker.send_queue.get()
-            worker.send_event.clear()
-            worker.send_lock.release()
-            sent.append(msg)
-    s.spawn("worker_send_handler", consumer)
+    # the library's own send handler loop takes the messages from the worker's queue; its transmission is the harness
+    worker.app = c14.AppProxy(worker.app, sent.append)
+    s.spawn("worker_send_handler", worker.send_handler)
     # an earlier failure, alone
     r0 = make_request("a1", "c1", 0, rng)
     t0 = app.create_message_thread(r0)
-    s.run(until=lambda: t0.done and len(sent) >= 1)
     reqs = [make_request("a1", "c1", k, rng) for k in (1, 2)]
     local_result = []
-    if with_local:
-        local = make_request("a1", "c1", 7, rng)
-        local.header.hop_by_hop = reqs[0].header.hop_by_hop
-        tl = s.spawn("local_caller", lambda: local_result.append(app.send_message(local)))
-        s.run(until=lambda: tl.pending is not None and tl.pending[0] == "wait" and len(sent) >= 2)
+    try:
+        s.run(until=lambda: t0.done and len(sent) >= 1)
+        if with_local:
+            local = make_request("a1", "c1", 7, rng)
+            local.header.hop_by_hop = reqs[0].header.hop_by_hop
+            tl = s.spawn("local_caller", lambda: local_result.append(app.send_message(local)))
+            s.run(until=lambda: tl.pending is not None and tl.pending[0] == "wait" and len(sent) >= 2)
+    except (vsched.Deadlock, vsched.StepLimit, vsched.StepHang) as e:
+        dead = [(t.name, f"{type(t.exc).__name__}: {t.exc}") for t in s.threads if t.exc is not None and not t.name.startswith("recv_request")]
+        s.kill_all()
+        return f"a single failing request (and a local request) before the two: {type(e).__name__}: {str(e)[:200]}; threads that ended with an exception: {dead}"
     base = len(sent)
     ts = [app.create_message_thread(r) for r in reqs]
     chooser = vsched.PCT(seed, depth=1 + seed % 3, horizon=300) if seed % 3 else None
